@@ -1472,3 +1472,32 @@ pub fn c05_unicode_encodings() -> Phase {
         wall_cap_s: 0,
     }
 }
+
+/// The renderer handed a codeword buffer with 1, 2, 8 or 300 surplus bytes behind the symbol's own codewords,
+/// for every size and three contents: the rendering must not depend on what lies behind the symbol's data.
+pub fn c08_surplus_codewords(seed: u64) -> Phase {
+    const NS: [u32; 4] = [1, 2, 8, 300];
+    let per = NS.len() as u64 * 3;
+    let total = N_SIZES as u64 * per;
+    let make = move |_ctx: &Ctx, i: u64| -> Trace {
+        let si = (i / per) as usize;
+        let r = i % per;
+        let n = NS[(r % 4) as usize];
+        let variant = r / 4;
+        let s = &SIZES[si];
+        let mut faults: Vec<Fault> = Vec::new();
+        // arbitrary content, not only valid RS words
+        let fill = seeded_data(seed ^ 0x5eed, si, variant);
+        for p in 0..s.n_total() {
+            let v = if variant == 2 { 0xFF } else { fill[p % fill.len().max(1)].wrapping_add(p as u8) };
+            faults.push(Fault::new("cw_replace", Op::CwSet { pos: p as u32, val: v }));
+        }
+        faults.push(Fault::new("snd_surplus", Op::CwSurplus { n, val: 0xA5 }));
+        Trace { prop: "C08".into(), producer: Producer::Raw { size: si, data: seeded_data(seed, si, variant) }, faults }
+    };
+    Phase {
+        source: Source::Sweep { name: "sweep_surplus_codewords_behind_the_symbol".into(), prop: "C08".into(), make: Box::new(make) },
+        runs: total,
+        wall_cap_s: 0,
+    }
+}
